@@ -248,3 +248,15 @@ def across_configurations(rec, descs, relation="same_in_every_interpreter_config
                 rec.fail(f"configuration|{name}|{d['op']}" + (":" + d.get("what", "") if d["op"] == "obj" else ""), relation,
                          {"calls": [d], "configuration": name, "origin": "configurations"}, a, b)
     rec.nt.add(hash(json.dumps(descs, sort_keys=True)))
+
+
+def content_extremes(text):
+    """(label, text) with thousands of further *significant* characters (digits / letters, not whitespace): beyond every real
+    IBAN or BIC, and beyond the interpreter's limit for converting digit strings (4300 digits by default)."""
+    head = text[:4]
+    yield "digits-700", text + "7" * 700
+    yield "digits-4400", text + "3" * 4400
+    yield "digits-20000", head + "9" * 20000
+    yield "letters-2300", text + "Z" * 2300
+    yield "alnum-9000", head + "A1" * 4500
+    yield "lower-5000", text.lower() + "x" * 5000
